@@ -1,9 +1,10 @@
 """C15 bounded part: the real `create` is run in a forked child process on a copy of a small world and killed (os._exit or
 SIGKILL, nothing is flushed) at every file-system effect it makes below the root - before each mkdir / open-for-write /
 write / flush / close / rename / remove, with the write in progress applied not at all (buffer lost or buffer drained),
-partially (several cut points) or fully - and, as a net for effects the hooks cannot see, before executed source lines of
-the package.  Afterwards an independent oracle derived from the statement is applied to the directory the dead process
-left behind: every previously committed manifest is byte-identical, the chain file parses (xml.etree) and still lists
+partially (several cut points) or fully - and, as nets for effects the Python-level hooks cannot see, (a) before executed
+source lines of the package and (b) with no instrumentation at all, by strace delivering SIGKILL on entry to the k-th
+openat / write / rename / mkdir / unlink ... system call that touches the tree (skipped if strace cannot attach).  Afterwards an independent oracle derived from the
+statement is applied to the directory the dead process left behind: every previously committed manifest is byte-identical, the chain file parses (xml.etree) and still lists
 every previously committed generation with its digest, nothing listed is missing or half present, nothing outside the
 ascmhl folders changed, and the next commands (verify, info, diff, create, verify) behave like they do on an
 uninterrupted control copy (old state or completed state) instead of aborting.  Histories with no prior generation are
@@ -908,7 +909,8 @@ def main():
         rule="case = (world, invocation variant of the interrupted create, crash point); crash point = k-th file-system effect below the "
         "root (mkdir / open-for-write / write / flush / close / rename / remove; a write applied not at all with the buffer lost or "
         "drained, cut at 1 / half / inside a multi-byte character / last byte, or fully), or the first / last read, or the k-th "
-        "executed source line of the package from the first effect on, or no crash; non-trivial = the child process really died at "
+        "executed source line of the package from the first effect on, or entry to the k-th mutating system call of the uninstrumented "
+        "command (strace inject), or no crash; non-trivial = the child process really died at "
         "that point (os._exit or SIGKILL) in a world with at least one history that has >= 1 committed generation",
         bound="19 worlds (quick) / 21 (thorough): 0, 1, 2, 3, 6, 11 prior generations, flat and nested up to 3 levels (child committed before "
         "parent, parent with 0 prior generations, child younger than the parent's first generation, create interrupted at a nested root and continued at the outer root), prefix-sibling / space / NFC / NFD / "
@@ -916,7 +918,7 @@ def main():
         "ignore-pattern generations; 8 invocation variants (root absolute / trailing slash / relative / '.', repeated -h, -n, -v with "
         "XML-special author and comment, POSIX DST time zone, +13:45 zone): 1-2 per world (quick), all for worlds <= 2 histories and 4 for "
         "the others (thorough); every effect of the trace (quick: first, last and one middle write per file; thorough: every write "
-        "in >= 3 ways, first and last in 7); <= 12 (quick, 4 worlds) / <= 60 (thorough) source-line crash points per world and variant",
+        "in >= 3 ways, first and last in 7); <= 12 (quick, 4 worlds) / <= 60 (thorough) source-line crash points per world and variant; every mutating system call below the root",
     )
     thorough = run.tier == "thorough"
     worlds = [w for w in WORLDS if thorough or w.get("tier") != "thorough"]
